@@ -24,6 +24,10 @@ func runC02(c *Check, tier string) {
 	ruleResolverTotal(c, "R02f")
 	ruleR02g(c, "R02g")
 	ruleR02h(c, "R02h")
+	// "the target's current state": everything the statement lists is key material on every path
+	ruleR01a(c, "R02i")
+	// "... or the target is tainted": a taint is removed only by a successful forced execution
+	ruleR13b(c, analyseGate(c, "R02j"), "R02j")
 }
 
 // R02g: the result writer always stores (a no-op rebuild can only hit on what the last successful
